@@ -549,6 +549,22 @@ func checkC17(p *core.Program, r *core.Report) {
 		} else {
 			r.Fail(R2, key, p.Pos(in.Pos()), "IPv4 addresses never reach the address list")
 		}
+		// IsLinkLocalUnicast is also true for 169.254.0.0/16: an IPv4 link-local address (direct cable, no DHCP) is usable and kept
+		notLL2 := func(b *ssa.BasicBlock, idx int) bool { // edge asserting IsLinkLocalUnicast() == false
+			i := core.BlockIf(b)
+			if i == nil {
+				return false
+			}
+			v, truth := core.Truth(i.Cond, idx)
+			call, ok := v.(*ssa.Call)
+			return ok && !truth && core.CalleeName(&call.Call) == "(net.IP).IsLinkLocalUnicast"
+		}
+		key = "IPv4 link-local addresses are kept"
+		if core.PathSearch(fnIn, nil, tgt, nil, orEdges(isV6, notLL2)) != nil {
+			r.OK(R2, key, p.Pos(in.Pos()), "an address with To4()!=nil reaches the append whatever IsLinkLocalUnicast says")
+		} else {
+			r.Fail(R2, key, p.Pos(in.Pos()), "the link-local filter is not restricted to IPv6 (To4()==nil): IsLinkLocalUnicast is also true for 169.254.0.0/16, so a peer that is reachable only over an IPv4 link-local address (direct cable, no DHCP) is reported without any address and can never be dialled")
+		}
 	})
 	if nap < 2 {
 		r.Fail(R2, "address appends", "", "expected the filter append and the merge append")
@@ -697,10 +713,45 @@ func checkC17(p *core.Program, r *core.Report) {
 		} else {
 			r.OK(R6, key, p.Pos(rep.Pos()), "every snapshot is forwarded")
 		}
+		// the forwarded list (and the list of known entries) holds every reported entry: the loops that build
+		// them append on every iteration
+		nl := 0
+		eachInstrWithCallees(p, rep, "hub", 2, func(in ssa.Instruction) {
+			c, ok := in.(*ssa.Call)
+			if !ok || !isBuiltin(in, "append") {
+				return
+			}
+			ts := types.TypeString(c.Type(), nil)
+			what := ""
+			switch {
+			case strings.HasSuffix(ts, "api.RemoteService"):
+				what = "visible-services list"
+			case strings.HasSuffix(ts, "api.MdnsEntry"):
+				what = "known-entries list"
+			default:
+				return
+			}
+			if !core.InLoop(in.Block()) {
+				return
+			}
+			nl++
+			key := "hub.ReportMdnsEntries " + what + " takes every reported entry"
+			if bad := skipsIteration(in); bad != nil {
+				r.Fail(R6, key, p.Pos(in.Pos()), "an iteration over the reported entries can go on to the next entry without appending this one (the append sits behind a `continue`, e.g. for connected or unpaired services): the list the application gets is not the set of visible services")
+			} else {
+				r.OK(R6, key, p.Pos(in.Pos()), "appended on every iteration")
+			}
+		})
+		if nl < 2 {
+			r.Fail(R6, "hub.ReportMdnsEntries list construction", p.Pos(rep.Pos()), "the loops that build the visible-services list and the known-entries list are not recognisable")
+		}
 	}
 	importRules(p, r, "C16", map[string]string{"C16.R1 txt-table-agreement": R6}, func(key string) bool {
 		return strings.HasPrefix(key, "reader demands ") || strings.HasPrefix(key, "mandatory key ")
 	})
+	const R7 = "C17.R7 txt-values-with-equals-survive"
+	r.Rule(R7, "the TXT parser separates key and value at the first '=' only (shared with C16.R2): otherwise a valid announcement whose id or path contains '=' loses a mandatory key and the service never becomes visible")
+	importRules(p, r, "C16", map[string]string{"C16.R2 split-at-first-equals": R7}, nil)
 	const R5 = "C17.R5 change-implies-report"
 	r.Rule(R5, "every path of the resolver callback that modified entries dispatches a report (unless no report sink is registered)")
 	fReport := p.Field("mdns", "MdnsManager", "report")
